@@ -37,6 +37,11 @@ def main():
     jobs = int(sys.argv[1]) if len(sys.argv) > 1 else 3
     prefix = sys.argv[2] if len(sys.argv) > 2 else ''
     names = sorted(n for n in os.listdir(SEEDED) if os.path.isdir(os.path.join(SEEDED, n)) and n.startswith(prefix))
+    if os.environ.get('SEED_NAMES'):
+        # an explicit selection (comma separated directory names); results are merged into RESULTS.json
+        wanted = set(os.environ['SEED_NAMES'].split(','))
+        names = [n for n in names if n in wanted]
+        prefix = prefix or 'selection'
     results = {}
     path = os.path.join(SEEDED, 'RESULTS.json')
     if prefix and os.path.exists(path):
